@@ -35,6 +35,8 @@ LS = "core/src/pixelcolor/raw/load_store.rs"
 MOD = "core/src/pixelcolor/raw/mod.rs"
 TB = "core/src/pixelcolor/raw/to_bytes.rs"
 IT = "src/iterator/raw.rs"
+FB = "src/framebuffer.rs"
+PROPS_FB = os.path.join(LEAN, "EG", "Props", "C10", "Generated.lean")
 
 # (name, kind, file, old text, new text, theorems expected to break (subset check) )
 CASES = [
@@ -110,6 +112,43 @@ CASES = [
     ("nth: the new index through a local", "harmless", IT,
      "self.index = self.index.saturating_add(n);", "let i = self.index.saturating_add(n);\n        self.index = i;",
      []),
+    # src/framebuffer.rs -> EG/Generated/FbSrc.lean, theorems of Props/C10/Generated.lean
+    ("Framebuffer impl_bit! set_pixel: x and y swapped in the index", "mutation", FB,
+     "let index = bytes_per_row * pixels_per_byte * y + x;", "let index = bytes_per_row * pixels_per_byte * x + y;",
+     ["set_pixel_bits_src_eq_model"]),
+    ("Framebuffer impl_bit! set_pixel: rows not padded to whole bytes", "mutation", FB,
+     "let bytes_per_row = (bits_per_row + 7) / 8;", "let bytes_per_row = bits_per_row / 8;",
+     ["set_pixel_bits_src_eq_model"]),
+    ("Framebuffer RawU8 set_pixel: column-major index", "mutation", FB,
+     "self.data[y * WIDTH + x] = c.into().into_inner();", "self.data[x * HEIGHT + y] = c.into().into_inner();",
+     ["set_pixel_u8_src_eq_model"]),
+    ("Framebuffer impl_bytes! set_pixel: row stride HEIGHT", "mutation", FB,
+     "let index = (y * WIDTH + x) * BYTES_PER_PIXEL;", "let index = (y * HEIGHT + x) * BYTES_PER_PIXEL;",
+     ["set_pixel_bytes_src_eq_model"]),
+    ("Framebuffer impl_bytes!: little endian framebuffers store big endian", "mutation", FB,
+     "impl_bytes!($raw_type, LittleEndianMsb0, to_le_bytes);", "impl_bytes!($raw_type, LittleEndianMsb0, to_be_bytes);",
+     ["set_pixel_bytes_src_eq_model"]),
+    ("buffer_size_bpp: `+ 7` -> `+ 8`", "mutation", FB,
+     "(width * bpp + 7) / 8 * height", "(width * bpp + 8) / 8 * height",
+     ["buffer_size_bpp_src_eq_model"]),
+    ("Framebuffer::new fills with 1", "mutation", FB,
+     "data: [0; N],", "data: [1; N],",
+     ["Framebuffer_new_src_eq_model"]),
+    ("Framebuffer: a function added (no translated body changes)", "mutation", FB,
+     "    pub fn data_mut(&mut self) -> &mut [u8; N] {\n        &mut self.data\n    }\n",
+     "    pub fn data_mut(&mut self) -> &mut [u8; N] {\n        &mut self.data\n    }\n\n    pub fn wipe(&mut self) {\n        self.data = [0; N];\n    }\n",
+     ["fb_untranslated_pinned"]),
+    ("Framebuffer impl_bit! set_pixel: local `pixels_per_byte` renamed", "harmless", FB,
+     "                        let pixels_per_byte = 8 / C::Raw::BITS_PER_PIXEL;\n                        let bits_per_row = WIDTH * C::Raw::BITS_PER_PIXEL;\n                        let bytes_per_row = (bits_per_row + 7) / 8;\n\n                        // Each row starts at a byte boundary. The position of the pixel inside\n                        // the byte depends on the data order and is determined by `store`.\n                        let index = bytes_per_row * pixels_per_byte * y + x;",
+     "                        let ppb = 8 / C::Raw::BITS_PER_PIXEL;\n                        let bits_per_row = WIDTH * C::Raw::BITS_PER_PIXEL;\n                        let bytes_per_row = (bits_per_row + 7) / 8;\n                        let index = bytes_per_row * ppb * y + x;",
+     []),
+    ("Framebuffer RawU8 set_pixel: the two `as usize` re-casts removed (x, y of `try_from` used)", "harmless", FB,
+     "                let x = p.x as usize;\n                let y = p.y as usize;\n\n                self.data[y * WIDTH + x]",
+     "                self.data[y * WIDTH + x]",
+     []),
+    ("Framebuffer RawU8 set_pixel: a method the translator does not know (`swap`)", "unknown", FB,
+     "self.data[y * WIDTH + x] = c.into().into_inner();", "self.data.swap(0, 1);",
+     []),
     ("bit_position: a `for` loop (outside the Rust subset)", "unknown", LS,
      "    (byte_index, bit_index)\n", "    for _k in 0..1 {}\n    (byte_index, bit_index)\n",
      []),
@@ -147,7 +186,7 @@ def seed_cases():
         if not os.path.exists(pf):
             continue
         txt = open(pf).read()
-        if any(("+++ b/" + rel) in txt for rel in tr_rawsrc.FILES):
+        if any(("+++ b/" + rel) in txt for rel in tr_rawsrc.FILES + [tr_rawsrc.FB_FILE]):
             out.append((f"seeded change {d}", "seed", pf, None, None, []))
     return out
 
@@ -158,7 +197,7 @@ def main():
     if only and only[0] == "--seeds":
         only = only[1:]
         cases = seed_cases()
-    rc, out = run(["lake", "build", "EG.Props.C11.Generated"], cwd=LEAN)
+    rc, out = run(["lake", "build", "EG.Props.C11.Generated", "EG.Props.C10.Generated"], cwd=LEAN)
     if rc != 0:
         print("the unchanged tree does not build EG.Props.C11.Generated:\n" + out[-2000:])
         return 2
@@ -172,12 +211,15 @@ def main():
         print("cannot create the scratch worktree:", out)
         return 2
     theorems = list_theorems(PROPS)
+    theorems_fb = list_theorems(PROPS_FB)
     bad = 0
     try:
         # baseline: the scratch copy translates to exactly the committed generated file
         files, info = tr_rawsrc.generate(scratch)
+        baseline = files
         cur = open(os.path.join(LEAN, "EG", "Generated", "RawSrc.lean")).read()
-        print(f"baseline: {info.get('functions')} functions translated; identical to lean/EG/Generated/RawSrc.lean: {files['RawSrc.lean'] == cur}")
+        cur_fb = open(os.path.join(LEAN, "EG", "Generated", "FbSrc.lean")).read()
+        print(f"baseline: {info.get('functions')} + {info.get('fb', {}).get('functions')} functions translated; identical to lean/EG/Generated/RawSrc.lean / FbSrc.lean: {files['RawSrc.lean'] == cur} / {files['FbSrc.lean'] == cur_fb}")
         for idx, (name, kind, rel, old, new, expect) in enumerate(cases):
             if only and not any(o in name for o in only):
                 continue
@@ -206,28 +248,41 @@ def main():
                 if e != "Generated":
                     os.symlink(os.path.join(real, "EG", e), os.path.join(gen_dir, "lib", "EG", e))
             for e in os.listdir(os.path.join(real, "EG", "Generated")):
-                if not e.startswith("RawSrc."):
+                if not e.startswith("RawSrc.") and not e.startswith("FbSrc."):
                     os.symlink(os.path.join(real, "EG", "Generated", e), os.path.join(gen_dir, "lib", "EG", "Generated", e))
-            gsrc = os.path.join(gen_dir, "src", "EG", "Generated", "RawSrc.lean")
-            open(gsrc, "w").write(files["RawSrc.lean"])
-            env = dict(os.environ, LEAN_PATH=lean_path)
-            rc1, out1 = run(["lean", "EG/Generated/RawSrc.lean", "-o", os.path.join(gen_dir, "lib", "EG", "Generated", "RawSrc.olean"),
-                             "-i", os.path.join(gen_dir, "lib", "EG", "Generated", "RawSrc.ilean")], env=env, cwd=os.path.join(gen_dir, "src"))
-            failed = "failed" in info
+            raw_same = files["RawSrc.lean"] == baseline["RawSrc.lean"]
+            fb_same = files["FbSrc.lean"] == baseline["FbSrc.lean"]
+            failed = "failed" in info or "fb_failed" in info
             broken = set()
-            if rc1 != 0:
-                broken.add("(generated file does not compile: " + out1.strip().splitlines()[0][:160] + ")")
-            else:
-                env2 = dict(os.environ, LEAN_PATH=os.path.join(gen_dir, "lib") + ":" + lean_path)
-                for (pf, ths) in ((PROPS, theorems),):
-                    rc2, out2 = run(["lean", pf], env=env2, cwd=LEAN)
-                    for m in re.finditer(r":(\d+):\d+: error", out2):
-                        ln = int(m.group(1))
-                        nm = None
-                        for (n, l) in ths:
-                            if l <= ln:
-                                nm = n
-                        broken.add(nm or f"{os.path.basename(pf)} line {ln}")
+            env = dict(os.environ, LEAN_PATH=os.path.join(gen_dir, "lib") + ":" + lean_path)
+            compiled = True
+            for gname in ("RawSrc", "FbSrc"):
+                open(os.path.join(gen_dir, "src", "EG", "Generated", gname + ".lean"), "w").write(files[gname + ".lean"])
+                rc1, out1 = run(["lean", f"EG/Generated/{gname}.lean", "-o", os.path.join(gen_dir, "lib", "EG", "Generated", gname + ".olean"),
+                                 "-i", os.path.join(gen_dir, "lib", "EG", "Generated", gname + ".ilean")], env=env, cwd=os.path.join(gen_dir, "src"))
+                if rc1 != 0:
+                    # FbSrc imports RawSrc: when RawSrc is a failure file FbSrc cannot compile either; that is C11's failure
+                    if gname == "RawSrc" or raw_same:
+                        broken.add(f"({gname}.lean does not compile: " + out1.strip().splitlines()[0][:160] + ")")
+                    compiled = compiled and gname != "RawSrc"
+                    if gname == "RawSrc":
+                        break
+            # C11's theorems against the regenerated RawSrc; C10's against the regenerated FbSrc when RawSrc is unchanged
+            # (Props/C10/Generated.lean imports C11's compiled theorems, which are about the unchanged RawSrc)
+            checks = []
+            if compiled and not raw_same:
+                checks.append((PROPS, theorems))
+            if compiled and raw_same and not fb_same:
+                checks.append((PROPS_FB, theorems_fb))
+            for (pf, ths) in checks:
+                rc2, out2 = run(["lean", pf], env=env, cwd=LEAN)
+                for m in re.finditer(r":(\d+):\d+: error", out2):
+                    ln = int(m.group(1))
+                    nm = None
+                    for (n, l) in ths:
+                        if l <= ln:
+                            nm = n
+                    broken.add(nm or f"{os.path.basename(pf)} line {ln}")
             if kind == "mutation":
                 ok = (not failed) and all(e in broken for e in expect)
             elif kind == "seed":
@@ -235,7 +290,7 @@ def main():
                 oos = [r for k, r in SEEDS_OUT_OF_SCOPE.items() if name.endswith(" " + k)]
                 if oos:
                     ok = not broken
-                    print(f"      (out of scope, expected to survive: {oos[0]})")
+                    name += f"\n      (out of scope, expected to survive: {oos[0]})"
             elif kind == "harmless":
                 ok = (not failed) and not broken
             else:
@@ -243,7 +298,7 @@ def main():
             bad += 0 if ok else 1
             print(f"[{kind}] {name}")
             if failed:
-                print(f"      translator: translationFailed = {info['failed']}")
+                print(f"      translator: translationFailed = {info.get('failed') or info.get('fb_failed')}")
             print(f"      theorems that no longer build: {len(broken)}" + (": " + ", ".join(sorted(broken)[:8]) + (" ..." if len(broken) > 8 else "") if broken else " (all proofs survive)"))
             print(f"      {'as recorded' if ok else 'NOT AS RECORDED (expected ' + (', '.join(expect) if expect else kind) + ')'}")
     finally:
